@@ -23,11 +23,35 @@ try:
     print(t)
     if "62 passed" not in t:
         sys.exit("twin does not pass the 62 tests")
+    # the seed's own demonstration (which fails with the seeded change) must pass on the twin, as it does on the unchanged tree
+    sm = json.load(open(os.path.join(VERIF, "seeded", seed, "meta.json")))
+    place, demo = sm.get("demo_placement"), os.path.join(VERIF, "seeded", seed, "demo.rs")
+    d = "not run"
+    if place and place.startswith("tests/") and os.path.exists(demo):
+        os.makedirs(os.path.join(root, "tests"), exist_ok=True)
+        shutil.copy(demo, os.path.join(root, place))
+        name = os.path.basename(place)[:-3]
+        d = subprocess.run("cargo test --offline --test %s 2>&1 | grep -E '^test result|^error' | head -3" % name, cwd=root, shell=True, stdout=subprocess.PIPE, text=True).stdout.strip()
+        os.remove(os.path.join(root, place))
+        print("demo:", d)
+        if "0 failed" not in d or "error" in d:
+            sys.exit("the seed's demonstration does not pass on the twin: not behaviour-preserving")
     dst = os.path.join(VERIF, "benign_seeded", nid)
     os.makedirs(dst, exist_ok=True)
     with open(os.path.join(dst, "patch.diff"), "w") as fh:
         fh.write(subprocess.run(["git", "diff"], cwd=root, stdout=subprocess.PIPE, text=True).stdout)
-    json.dump({"id": nid, "applies": True, "tests": t, "kind": "repaired twin (written here) of the seeded change %s: the same restructuring without the defect. %s" % (seed, spec.get("note", "")), "false_alarms_when_first_run": None, "false_alarms_now": {}}, open(os.path.join(dst, "meta.json"), "w"), indent=1)
+    json.dump({"id": nid, "applies": True, "tests": t, "seed_demo_on_twin": d, "kind": "repaired twin (written here) of the seeded change %s: the same restructuring without the defect. %s" % (seed, spec.get("note", "")), "false_alarms_when_first_run": None, "false_alarms_now": {}}, open(os.path.join(dst, "meta.json"), "w"), indent=1)
     print("stored", dst)
+    # facts of the twin + all 18 checks
+    sys.path.insert(0, os.path.join(VERIF, "engine"))
+    from mhsa import runner
+    xt, fp = runner.extract(root)
+    out = "/tmp/benign_%s.json" % nid
+    shutil.copy(fp, out); shutil.rmtree(xt, ignore_errors=True)
+    for i in range(1, 19):
+        c = "C%02d" % i
+        r = subprocess.run([os.path.join(VERIF, "check"), c, "--facts", out, "--no-evidence"], stdout=subprocess.PIPE, stderr=subprocess.STDOUT, text=True)
+        if r.returncode != 0:
+            print("FALSE ALARM", c, [l for l in r.stdout.splitlines() if "VIOLATION" in l or l.lstrip().startswith("rule")][:6])
 finally:
     shutil.rmtree(tmp, ignore_errors=True)
